@@ -339,17 +339,19 @@ ADDENDA2 = {
     'C05': ' Round 2: the identity evaluated again for inputs wrapping Fortran-ordered arrays; scalars with a '
            'tiny imaginary part, tiny and huge factors.',
     'C06': ' Round 2: base points of tiny magnitude with steps scaled alike (judged where the three step sizes '
-           'agree to 1e-8); simple_functional and its conjugates.',
+           'agree to 1e-8); simple_functional and its conjugates; base point and directions wrapping '
+           'Fortran-ordered arrays.',
     'C07': ' Round 2: raw factories for box / non-negativity / constant functionals with every documented form of '
            'the bounds, sub-sums taken out of a separable sum by indexing, list / tuple / ndarray spellings of '
-           'per-component steps, simple_functional with 0-3 conjugations, one-component weighted power spaces.',
+           'per-component steps, simple_functional with 0-3 conjugations, one-component weighted power spaces, x wrapping a '
+           'Fortran-ordered array on 2-d tensor spaces.',
     'C08': ' Round 2: Moreau decomposition of the factory pairs proximal_X / proximal_convex_conj_X with their own '
            'lam, g and per-point steps, and of (scaled) separable sums with per-component steps; points of tiny '
            'magnitude on both sides of the Fenchel-Young clauses.',
     'C09': ' Round 2: base points of tiny magnitude; factors and dividends that vanish where their gradient does '
            'not; gradient callables that return their argument; a derivative must not follow later in-place '
            'updates of its base point; derived functionals over a linear base (affine results must not be '
-           'flagged linear).',
+           'flagged linear); x wrapping a Fortran-ordered array on 2-d tensor spaces.',
     'C13': ' Round 2: cell sides next to 1 and magnitude regimes of the grid.',
     'C14': ' Round 2: magnitude regimes of limits and coordinates (far, tiny, huge), built-as-uniform clause for '
            'every construction route, operands and points spelled as tuples / NumPy scalars.',
